@@ -294,8 +294,8 @@ def decodeFrag : Nat → String → Json → Option String → Option Agg
         if !Json.hasKeys m ["low", "high", "entries", "values:type", "values", "underflow:type",
             "underflow", "overflow:type", "overflow", "nanflow:type", "nanflow"] ["name", "values:name"]
         then none else do
-          let low ← match Json.get? "low" m with | some (.num q) => some q | _ => none
-          let high ← match Json.get? "high" m with | some (.num q) => some q | _ => none
+          let low ← (Json.get? "low" m).bind Json.toRat?
+          let high ← (Json.get? "high" m).bind Json.toRat?
           let e ← entriesOf? m
           let nm ← named m
           let vt ← match Json.get? "values:type" m with | some (.str s) => some s | _ => none
@@ -315,7 +315,7 @@ def decodeFrag : Nat → String → Json → Option String → Option Agg
     | "SparselyBin", .obj m =>
         if !Json.hasKeys m ["binWidth", "entries", "bins:type", "bins", "nanflow:type", "nanflow", "origin"]
             ["name", "bins:name"] then none else do
-          let width ← match Json.get? "binWidth" m with | some (.num q) => some q | _ => none
+          let width ← (Json.get? "binWidth" m).bind Json.toRat?
           let e ← entriesOf? m
           let nm ← named m
           let bt ← match Json.get? "bins:type" m with | some (.str s) => some s | _ => none
@@ -328,7 +328,7 @@ def decodeFrag : Nat → String → Json → Option String → Option Agg
             | _ => none
           let nt ← match Json.get? "nanflow:type" m with | some (.str s) => some s | _ => none
           let n ← (Json.get? "nanflow" m).bind (fun x => sub nt x none)
-          let origin ← match Json.get? "origin" m with | some (.num q) => some q | _ => none
+          let origin ← (Json.get? "origin" m).bind Json.toRat?
           if !(0 < width) || !isKnownType bt then none else
           pure (.node (.sparse (deadQty nm) width origin bt bn) e .unit none
                   ((.nanflow, n) :: bins.foldl (fun acc p => insertK p.1 p.2 acc) []))
@@ -343,7 +343,7 @@ def decodeFrag : Nat → String → Json → Option String → Option Agg
             | some (.arr l) => l.mapM (fun x => match x with
                 | .obj bp =>
                   if !Json.hasKeys bp ["center", "data"] [] then none else do
-                    let c ← match Json.get? "center" bp with | some (.num q) => some q | _ => none
+                    let c ← (Json.get? "center" bp).bind Json.toRat?
                     let a ← (Json.get? "data" bp).bind (fun y => sub bt y bn)
                     pure (Key.ctr c, a)
                 | _ => none)
